@@ -1,6 +1,6 @@
 //! C02 — guest address queries answer exactly according to the set of mapped regions.
 
-use crate::layouts::{build_mmap, cell_layouts, Layout, MockMemory, RegionPtrs};
+use crate::layouts::{build_mmap, build_mmap_route_checked, cell_layouts, Layout, MockMemory, RegionPtrs};
 use crate::report::{Ctx, Tier};
 use serde_json::{json, Value};
 use std::collections::BTreeSet;
@@ -237,7 +237,7 @@ pub fn bases_mmap(u: usize) -> Vec<u64> {
 
 pub fn run(tier: Tier, replay: Option<String>) -> i32 {
     let ctx = crate::new_ctx("C02", tier, "exploration", &replay);
-    ctx.set_rule("every set of disjoint non-empty regions over U one-byte cells (adjacent distinguished from merged) x bases {0, 0x1000, 2^32-3, 2^63-3, top of the address space} x every query method at every address of [base-2, base+U+2) plus {0,1,2^63,2^64-2,2^64-1} x every length/offset 0..=U+2 plus values around isize::MAX/usize::MAX; for GuestMemoryMmap (real mmaps) and for a linear-search implementation that inherits all default methods (regions may end at 2^64-1); huge layouts (2^20..2^62 bytes, 1-byte and 2^61-byte holes) through raw regions, probed at region starts/ends +-1. Oracle: sorted interval list. A case is one (layout, address[, length]) query group; non-trivial = length >= 1 or an address-level query; distinct by construction.");
+    ctx.set_rule("every set of disjoint non-empty regions over U one-byte cells (adjacent distinguished from merged) x bases {0, 0x1000, 2^32-3, 2^63-3, top of the address space} x every query method at every address of [base-2, base+U+2) plus {0,1,2^63,2^64-2,2^64-1} x every length/offset 0..=U+2 plus values around isize::MAX/usize::MAX; for GuestMemoryMmap (real mmaps; built, rotating with the layout, by one constructor call, by insertions from the back, or with extra regions that are removed again) and for a linear-search implementation that inherits all default methods (regions may end at 2^64-1); huge layouts (2^20..2^62 bytes, 1-byte and 2^61-byte holes) through raw regions, probed at region starts/ends +-1. Oracle: sorted interval list. A case is one (layout, address[, length]) query group; non-trivial = length >= 1 or an address-level query; distinct by construction.");
     ctx.assume("ranges of length 0 are executed but not judged (the statement quantifies over the bytes of the range)");
     let u = if tier.thorough() { 9 } else { 7 };
     let cells = cell_layouts(u);
@@ -276,12 +276,11 @@ pub fn run(tier: Tier, replay: Option<String>) -> i32 {
                     for base in bases_mmap(u) {
                         let l = Layout::from_cells(base, c);
                         let addrs = probe_addrs(base, u, &l);
-                        match build_mmap(&l) {
-                            Ok(m) => {
-                                check_queries(ctx, "mmap", &m, &l, &addrs, lens, true);
-                                nlay.fetch_add(1, std::sync::atomic::Ordering::Relaxed);
-                            }
-                            Err(e) => ctx.machinery(&format!("cannot build layout {}: {}", l.describe(), e)),
+                        // the construction route rotates with the layout: one call, insertions,
+                        // or extra regions removed again
+                        if let Some(m) = build_mmap_route_checked(ctx, "C02", &l, (ci + (base % 7) as usize) % 3) {
+                            check_queries(ctx, "mmap", &m, &l, &addrs, lens, true);
+                            nlay.fetch_add(1, std::sync::atomic::Ordering::Relaxed);
                         }
                     }
                     // the mock may also hold a region that ends at 2^64-1
@@ -313,9 +312,10 @@ pub fn run(tier: Tier, replay: Option<String>) -> i32 {
             let span = (l.regs.last().unwrap().0 + l.regs.last().unwrap().1 - 0x1000) as usize;
             let addrs: Vec<u64> = (0..span as u64 + 3).map(|d| 0x0fff + d).chain([0, u64::MAX]).collect();
             let lens2: Vec<usize> = vec![0, 1, 2, 3, 4, span, span + 1, usize::MAX];
-            match build_mmap(&l) {
-                Ok(m) => check_queries(&ctx, "mmap", &m, &l, &addrs, &lens2, true),
-                Err(e) => ctx.machinery(&format!("cannot build {}: {}", l.describe(), e)),
+            for route in 0..3 {
+                if let Some(m) = build_mmap_route_checked(&ctx, "C02", &l, route) {
+                    check_queries(&ctx, "mmap", &m, &l, &addrs, &lens2, true);
+                }
             }
             let mock = MockMemory::new(&l);
             check_queries(&ctx, "mock", &mock, &l, &addrs, &lens2, true);
